@@ -4,3 +4,4 @@ import SquidModel.Properties.C05
 #print axioms SquidModel.C05.one_response_per_request
 #print axioms SquidModel.C05.kth_response_is_kth_request
 #print axioms SquidModel.C05.queue_bounded
+#print axioms SquidModel.C05.idle_means_all_answered
